@@ -73,3 +73,14 @@ func isGotoDestination(t token.Token) bool {
 
 	return len(components) == 2
 }
+
+// caseLabel renders a case label without the comments attached to it,
+// two labels are duplicates regardless of the comments around them
+func caseLabel(expr ast.Expression) string {
+	m := expr.GetMeta()
+	leading, trailing := m.Leading, m.Trailing
+	m.Leading, m.Trailing = ast.Comments{}, ast.Comments{}
+	label := expr.String()
+	m.Leading, m.Trailing = leading, trailing
+	return label
+}
